@@ -3,6 +3,8 @@ import ProductMD.Proofs.C17General
 import ProductMD.Model.TreeInfoText
 import ProductMD.Proofs.TextOKDecide
 import ProductMD.Proofs.C17Legacy
+import ProductMD.Proofs.C17LegacySame
+import ProductMD.Proofs.TreeInfoDecEq
 import ProductMD.Proofs.C05WitnessTI
 /-!
 # C17 — the legacy `[general]` section mirrors the authoritative sections
@@ -301,6 +303,79 @@ theorem C17_legacy_reader_partial (sp : Char → Bool) (hsp : IniParse.SpOK sp) 
         rw [setsKV_nil_nodup _ (himg.1 p hp)] at hkv
         exact himn p hp kv hkv
 
+/-- **When that is "the same tree".**  Of `legacyTree`: architecture and integer timestamp are the tree's; the platforms
+are the architecture and the platforms that have images (a platform without images is not seen: `[general] platforms` is
+not read); there is exactly ONE variant and its id = uid = name is the `[general] variant`; the release name is the
+tree's whenever the family table leaves it alone, the version whenever it has no `-` / `_`; checksums, images, stage2 are
+what the current reader returns (C04); there is no media. -/
+theorem C17_legacy_same (t : TreeInfo) (n : Int) (key : Str) (chosen : Variant) :
+    (legacyTree t n key chosen).tree.arch = t.tree.arch ∧ (legacyTree t n key chosen).tree.ts = .int n ∧
+    (∀ p, p ∈ (legacyTree t n key chosen).tree.platforms ↔ p = t.tree.arch ∨ p ∈ t.images.map (·.1)) ∧
+    (∃ paths, (legacyTree t n key chosen).variants = [.mk key key key key tVariant paths []]) ∧
+    ((Legacy.releaseShort00 t.release.name).1 = t.release.name → (legacyTree t n key chosen).release.name = t.release.name) ∧
+    ((∀ c ∈ t.release.version, c ≠ '-' ∧ c ≠ '_') → (legacyTree t n key chosen).release.version = t.release.version) ∧
+    (legacyTree t n key chosen).checksums = (norm t).checksums ∧ (legacyTree t n key chosen).images = (norm t).images ∧
+    (legacyTree t n key chosen).mainimage = (norm t).mainimage ∧ (legacyTree t n key chosen).instimage = (norm t).instimage ∧
+    (legacyTree t n key chosen).discnum = none ∧ (legacyTree t n key chosen).totaldiscs = none :=
+  ⟨rfl, rfl, mem_legacyPlatforms t, ⟨_, rfl⟩, fun h => h, fun h => legacyVersion_plain _ h, rfl, rfl, rfl, rfl, rfl, rfl⟩
+
+/-- **…and its paths.**  Outside the RHEL / Fedora special cases (`short` from the family table is neither), when
+`[general]` carries clean `repository = r` and `packagedir = p` (not empty, no trailing `/`, not ending in `/repodata`):
+the one variant has `packages = p`, `repository = r` — in a `src` tree `source_packages = p`, `source_repository = r` —
+and no other path.  By `C17_mirror`, `p` / `r` are the `packages` / `repository` paths of the designated variant, in a
+`src` tree falling back to its `source_*` paths. -/
+theorem C17_legacy_paths (t : TreeInfo) (n : Int) (key r p : Str) (chosen : Variant)
+    (h1 : (Legacy.releaseShort00 t.release.name).2 ≠ Legacy.sRHEL) (h2 : (Legacy.releaseShort00 t.release.name).2 ≠ Legacy.sFedora)
+    (hr : generalPath t.tree.arch chosen.paths "repository".toList "source_repository".toList = some r)
+    (hp : generalPath t.tree.arch chosen.paths "packages".toList "source_packages".toList = some p)
+    (cr : CleanPath r) (cp : CleanPath p) :
+    (legacyTree t n key chosen).variants = [.mk key key key key tVariant
+      (if t.tree.arch == Legacy.sSrc then [(Legacy.kSourcePackages, p), (Legacy.kSourceRepository, r)]
+       else [(Legacy.kPackages, p), (kRepository, r)]) []] := by
+  have := legacyPaths_plain (legacyCtx t) key r p h1 h2 cr cp
+  simp only [legacyTree, legacyVariant, hr, hp, this]
+  rfl
+
+/-! ### the side conditions are necessary: decided witnesses (both replayed on the real code, `harness/props/c17.py`) -/
+
+/-- a float timestamp below 1: `int()` makes it `0`, `[general] timestamp = 0`, and the 0.0 reader refuses the tree
+("build_timestamp must not be blank") although every other side condition holds -/
+def C17_wZero : TreeInfo :=
+  { headerVersion := "0.0".toList, release := ⟨"Foo".toList, "F".toList, "1.0".toList⟩, isLayered := false, baseProduct := none,
+    tree := ⟨"x86_64".toList, .float "0.5".toList (.ok 0), []⟩,
+    variants := [.mk "Server".toList "Server".toList "Server".toList "Server".toList "variant".toList
+                    [("packages".toList, "Packages".toList), ("repository".toList, "repo".toList)] []],
+    checksums := [], images := [], mainimage := none, instimage := none, discnum := none, totaldiscs := none }
+
+theorem C17_legacy_zero_timestamp_refused :
+    (match serialize C17_wZero none with
+     | .ok d => (opt d sGeneral kTimestamp == some "0".toList) &&
+                (match Legacy.deserialize intOracle (compatDoc d) with | .error .valueError => true | _ => false)
+     | .error _ => false) = true := by decide +kernel
+
+example : LegacyOK C17_wZero "Server".toList :=
+  ⟨by decide, by decide, by decide +kernel, by decide +kernel, ⟨by simp [C17_wZero], by simp [C17_wZero], by simp [C17_wZero], by simp [C17_wZero]⟩⟩
+
+/-- a main variant designated by a dashed path (a child): `dump` accepts it, `[general] variant = Server-HA`, and the 0.0
+reader refuses the tree (id `HA` ≠ uid `Server-HA` in a variant without parent) -/
+def C17_exTree' : TreeInfo :=
+  { headerVersion := "0.0".toList, release := ⟨"Foo".toList, "F".toList, "21".toList⟩, isLayered := false, baseProduct := none,
+    tree := ⟨"x86_64".toList, .int 1417653911, ["xen".toList]⟩,
+    variants := [.mk "Server".toList "Server".toList "Server".toList "Server".toList "variant".toList
+                    [("packages".toList, "Packages".toList), ("repository".toList, "repo".toList)]
+                    [.mk "HA".toList "HA".toList "Server-HA".toList "HA".toList "addon".toList [] []],
+                 .mk "Client".toList "Client".toList "Client".toList "Client".toList "variant".toList
+                    [("packages".toList, "Client/Packages".toList), ("repository".toList, "Client".toList)] []],
+    checksums := [("images/boot.iso".toList, "sha256".toList, "00".toList)],
+    images := [("xen".toList, [("kernel".toList, "images/xen/vmlinuz".toList)])],
+    mainimage := some "images/install.img".toList, instimage := none, discnum := some 1, totaldiscs := some 2 }
+
+theorem C17_legacy_dashed_refused :
+    (match serialize C17_exTree' (some "Server-HA".toList) with
+     | .ok d => (opt d sGeneral tVariant == some "Server-HA".toList) &&
+                (match Legacy.deserialize intOracle (compatDoc d) with | .error .valueError => true | _ => false)
+     | .error _ => false) = true := by decide +kernel
+
 /-! ### non-vacuity: a `src` tree with a nested addon, only source paths, media -/
 def C17_exTree : TreeInfo :=
   { headerVersion := "0.0".toList, release := ⟨"Fedora".toList, "F".toList, "21".toList⟩, isLayered := false, baseProduct := none,
@@ -328,5 +403,22 @@ example : ((dumps C17_exTree none).toOption.bind fun text => (IniParse.parse Str
 example : (match getItem 7 C17_exTree.variants "Nobody".toList with | .error .keyError => true | _ => false) = true := by decide +kernel
 example : (serialize C17_exTree (some "Nobody".toList)).toBool = false ∧ (serialize C17_exTree (some "Server-HA".toList)).toBool = true := by
   decide +kernel
+
+/-- non-vacuity of `C17_legacy_reader_partial`: on `C17_exTree'` (two variants, a child, extra platform with images, checksums,
+stage2, media) with the default main variant the reader succeeds and returns `legacyTree`; the side conditions hold; the
+paths are the designated variant's -/
+example : (serialize C17_exTree' none).toOption.map (fun d => Legacy.deserialize intOracle (compatDoc d))
+    = some (.ok (legacyTree C17_exTree' 1417653911 "Client".toList
+        (.mk "Client".toList "Client".toList "Client".toList "Client".toList "variant".toList
+          [("packages".toList, "Client/Packages".toList), ("repository".toList, "Client".toList)] []))) := by decide +kernel
+example : LegacyOK C17_exTree' "Client".toList :=
+  ⟨by decide, by decide, by decide +kernel, by decide +kernel,
+    ⟨by simp [C17_exTree', RelPath, Str.startsWith, List.isPrefixOf], by simp [C17_exTree', RelPath, Str.startsWith, List.isPrefixOf],
+     by simp [C17_exTree', RelPath, Str.startsWith, List.isPrefixOf], by simp [C17_exTree']⟩⟩
+example : (legacyTree C17_exTree' 1417653911 "Client".toList
+        (.mk "Client".toList "Client".toList "Client".toList "Client".toList "variant".toList
+          [("packages".toList, "Client/Packages".toList), ("repository".toList, "Client".toList)] [])).variants
+    = [.mk "Client".toList "Client".toList "Client".toList "Client".toList "variant".toList
+          [("packages".toList, "Client/Packages".toList), ("repository".toList, "Client".toList)] []] := by decide +kernel
 
 end PM
